@@ -57,7 +57,7 @@ theorem getParallelTaskSummary_congr (d : PIndex) (job : Job) (a b : List TaskRe
 theorem stable_sync {j0 jo : JobObj} {sp : Sys} (ctx : PassCtx j0 sp) (hwf : WF2 j0 sp.d) (hjo : VerOK j0 jo)
     (hg : Good j0 sp.d jo.job) (hv : VerOK3 sp.d jo)
     (hfin : ∀ r ∈ jo.job.status.tasks, r.finishTimestamp.isSome = true → PodFinIn sp.pods r.name)
-    (htm : j0.job.template.isSome = true) (hnd : jo.job.deletionTimestamp = none)
+    (htm : j0.job.template.isSome = true) (hnd : jo.job.deletionTimestamp = none) (hnu : NoUnrec sp jo)
     (k : JobResult × Option Time) (hk : finKey jo.job.status.condition = some k) :
     finKey (sync sp jo).2.1.status.condition = some k := by
   have htm' : jo.job.template.isSome = true := by rw [hjo.template]; exact htm
@@ -93,7 +93,7 @@ theorem stable_sync {j0 jo : JobObj} {sp : Sys} (ctx : PassCtx j0 sp) (hwf : WF2
       rw [this]; exact hcomplete
     -- hence no name was added, and every finished ref is frozen
     have hsame : SameFinished j0 sp.d jo.job (sync sp jo).2.1 :=
-      ⟨hg, hres.good, hle.names, (hnames (Or.inl hcomplete0)).1 hnd, hres.froz, hallfin⟩
+      ⟨hg, hres.good, hle.names, (hnames (Or.inl ⟨hcomplete0, hnu⟩)).1 hnd, hres.froz, hallfin⟩
     have hview := hsame.view hwf jo.job.maxAttempts
     have hkey := getCondition_finKey_congr sp.clock sp.d jo.job (sync sp jo).2.1 hv.noAdm
       (by rw [hres.adm]; exact hv.noAdm) hstart hle.startTime hle.kill hle.template
@@ -111,7 +111,7 @@ def StableFrom (j j' : JobObj) : Prop :=
     ∀ k, finKey j.job.status.condition = some k → finKey j'.job.status.condition = some k
 
 theorem stable_moves {j0 : JobObj} {s : Sys} {a : Action} (hb : Base j0 s) (h2 : Inv2 j0 s) (h3 : Inv3G s)
-    (hwf : WF2 j0 s.d) (hwf3 : WF3 j0) (henv : stabEnv s a) (j : JobObj) (hj : s.job = some j)
+    (hwf : WF2 j0 s.d) (hwf3 : WF3 j0) (henv : stabEnvF s a) (j : JobObj) (hj : s.job = some j)
     {o : Option JobObj} (hm : JobMoves s a (some j) o) : ∀ y, o = some y → StableFrom j y := by
   have h3' := h3 (by rw [hj]; rfl)
   suffices hgen : ∀ src o, JobMoves s a src o → src = some j → ∀ y, o = some y → StableFrom j y from
@@ -126,12 +126,12 @@ theorem stable_moves {j0 : JobObj} {s : Sys} {a : Action} (hb : Base j0 s) (h2 :
     | goneTTL => cases hy
     | goneSpec => cases hy
     | delMark cur t rv _ _ _ _ => cases hy; intro hd; cases hd
-    | kill cur t rv ha _ => subst ha; exact absurd henv.2.1 (by simp [noUserEdit])
+    | kill cur t rv ha _ => subst ha; exact absurd henv.1.2.1 (by simp [noUserEdit])
     | ctlSpec jo sp rv _ hc hf _ _ =>
       cases hy
       intro hd
       exact ih hsrc jo rfl hd
-    | ctlStatus jo sp rv _ hc hf _ =>
+    | ctlStatus jo sp rv ha hc hf _ =>
       cases hy
       intro hd
       have hjd : jo.job.deletionTimestamp = none := hd
@@ -153,22 +153,27 @@ theorem stable_moves {j0 : JobObj} {s : Sys} {a : Action} (hb : Base j0 s) (h2 :
         exact h3'.lin c (Or.inl (hf.podCache ▸ hcm)) hfin⟩
       have hfin : ∀ r ∈ jo.job.status.tasks, r.finishTimestamp.isSome = true → PodFinIn sp.pods r.name := by
         intro r hr hfn; rw [hf.pods]; exact h3'.fin jo hall r hr hfn
-      exact stable_sync ctx (hf.d ▸ hwf) hjo hg ⟨hv.rs, hv.noKill, hv.noAdm, hf.d ▸ hv.coh⟩ hfin hwf3.tmpl hjd k hk'
+      have hnu : NoUnrec sp jo := by
+        obtain ⟨f, hff, _⟩ := finKey_some hk'
+        have := henv.2 ha jo hc (by rw [hff]; rfl)
+        intro p hp
+        exact this p (hf.podCache ▸ hp)
+      exact stable_sync ctx (hf.d ▸ hwf) hjo hg ⟨hv.rs, hv.noKill, hv.noAdm, hf.d ▸ hv.coh⟩ hfin hwf3.tmpl hjd hnu k hk'
 
 /-- one step inside the envelope: a non-deleted Job that is `Finished` with result / finish time `k`
 is, after the step (if the object still exists and is not being deleted), `Finished` with the same `k` -/
-theorem stable_step {ok : Sys → Action → Prop} (hok : ∀ s a, ok s a → stabEnv s a) {j0 : JobObj} {s : Sys}
+theorem stable_step {ok : Sys → Action → Prop} (hok : ∀ s a, ok s a → stabEnvF s a) {j0 : JobObj} {s : Sys}
     (hr : Reach ok j0 s) (hwf : WF2 j0 s.d) (hwf3 : WF3 j0) (a : Action) (hoka : ok s a) (hal : Allowed j0 s a)
     (j j' : JobObj) (hj : s.job = some j) (hj' : (step s a).job = some j') : StableFrom j j' := by
   have hb := base_of_reach hr
-  have h2 := inv2_of_reach (fun s a h => (hok s a h).1) hr hwf
-  have h3 := inv3_of_reach hok hr hwf hwf3
+  have h2 := inv2_of_reach (fun s a h => (hok s a h).1.1) hr hwf
+  have h3 := inv3_of_reach (fun s a h => (hok s a h).1) hr hwf hwf3
   have hm := job_moves hb a hal
   rw [hj] at hm
   exact stable_moves hb h2 h3 hwf hwf3 (hok s a hoka) j hj hm j' hj'
 
 /-- … and along every continuation of the history inside the envelope -/
-theorem stable_steps {ok : Sys → Action → Prop} (hok : ∀ s a, ok s a → stabEnv s a) {j0 : JobObj} {s s' : Sys}
+theorem stable_steps {ok : Sys → Action → Prop} (hok : ∀ s a, ok s a → stabEnvF s a) {j0 : JobObj} {s s' : Sys}
     (hr : Reach ok j0 s) (hwf : WF2 j0 s.d) (hwf3 : WF3 j0) (hs : Steps ok j0 s s') :
     ∀ j j', s.job = some j → s'.job = some j' → StableFrom j j' := by
   induction hs with
@@ -221,9 +226,34 @@ theorem noStale_of_check {s : Sys} (h : noStaleCheck s = true) : noStaleCopyOnCr
   · rw [List.contains_iff_mem] at h'; exact absurd h' hn
   · exact freshName_of_b h'
 
+/-- the pod cache holds no unrecorded task of a cached Job that is recorded `Finished` -/
+def noUnrecCheck (s : Sys) : Bool :=
+  match s.jobCache with
+  | none => true
+  | some jo =>
+    !jo.job.status.condition.finished.isSome ||
+      s.podCache.all (fun p =>
+        !(decide (p.jobLabel = some jo.uid) && decide (p.ownerUid = some jo.uid) &&
+          !(jo.job.status.tasks.any (·.name = p.pod.name))) || (podTask p).isNone)
+
+theorem noUnrec_of_check {s : Sys} (h : noUnrecCheck s = true) : noUnrecordedWhenFinished s .work := by
+  intro _ jo hc hfin p hp hl ho hn
+  unfold noUnrecCheck at h
+  simp only [hc, hfin, Bool.not_true, Bool.false_or, List.all_eq_true] at h
+  have hp' := h p hp
+  have hcond : (decide (p.jobLabel = some jo.uid) && decide (p.ownerUid = some jo.uid) &&
+      !(jo.job.status.tasks.any (·.name = p.pod.name))) = true := by
+    simp only [Bool.and_eq_true, decide_eq_true_eq, Bool.not_eq_true', List.any_eq_false]
+    exact ⟨⟨hl, ho⟩, fun r hr => by simpa using hn r hr⟩
+  rw [hcond] at hp'
+  simpa using hp'
+
 /-- the decidable filter: no foreign pod, no user kill / delete, and before every pass `noStaleCheck` -/
 def stabChecked (s : Sys) (a : Action) : Prop :=
   noForeign s a ∧ noUserEdit s a ∧ (a = .work → noStaleCheck s = true)
+
+/-- … and `noUnrecCheck`: the decidable form of `stabEnvF` -/
+def stabCheckedF (s : Sys) (a : Action) : Prop := stabChecked s a ∧ (a = .work → noUnrecCheck s = true)
 
 instance (s : Sys) (a : Action) : Decidable (stabChecked s a) := by unfold stabChecked; infer_instance
 
@@ -231,6 +261,14 @@ theorem stabEnv_of_checked (s : Sys) (a : Action) (h : stabChecked s a) : stabEn
   refine ⟨h.1, h.2.1, ?_⟩
   cases a with
   | work => exact noStale_of_check (h.2.2 rfl)
+  | _ => intro hw; cases hw
+
+instance (s : Sys) (a : Action) : Decidable (stabCheckedF s a) := by unfold stabCheckedF; infer_instance
+
+theorem stabEnvF_of_checked (s : Sys) (a : Action) (h : stabCheckedF s a) : stabEnvF s a := by
+  refine ⟨stabEnv_of_checked s a h.1, ?_⟩
+  cases a with
+  | work => exact noUnrec_of_check (h.2 rfl)
   | _ => intro hw; cases hw
 
 end Furiko.JobCtl
